@@ -18,6 +18,9 @@ def main():
         for e in a["ev"]:
             if e["ev"] == "VarDecl":
                 ps.add(("var_untyped_top" if depth == 0 else "var_untyped_local", e["name"]))
+            if e["ev"] == "Exit" and e["kind"] == "Fun" and e.get("owner") == "local":
+                ps.add(("closure_untyped", e["name"]))
+                ps.add(("closure_typed", e["name"]))
             if e["ev"] == "Enter":
                 depth += 1
             elif e["ev"] == "Exit":
